@@ -130,6 +130,10 @@ def delayed_load(all_props, loader, element=True, isotope=False, ion=False):
         def setfn(el, value):
             #print "set", el, propname, value
             clearprops()
+            # Load the table data before storing the value, as the getter does;
+            # otherwise a loader running on a private table, or a user
+            # assignment, leaves the public table without the property.
+            loader()
             setattr(el, propname, value)
         return setfn
 
